@@ -868,6 +868,15 @@ Extra:\n{self.extra_map}
                 # BIP67 sort order
                 bip32_derivs = sorted(bip32_derivs, key=lambda k: k["pubkey"])
 
+                # Every cosigner must hold exactly one key of a change output
+                # (n keys from fewer than n cosigners is not this wallet's quorum)
+                if len({d["master_fingerprint"] for d in bip32_derivs}) != len(
+                    bip32_derivs
+                ):
+                    raise SuspiciousTransaction(
+                        f"Output #{cnt} claims to be change but has several keys from the same cosigner"
+                    )
+
                 # Confirm there aren't >1 change ouputs
                 # (this is technically allowed but too sketchy to support)
                 if change_sats or change_addr:
